@@ -768,10 +768,13 @@ type built struct {
 
 // how a history wants its containers built
 type buildOpts struct {
-	nFixed   int  // >= 0: that many elements, drawn from three registered ones (gen "counts")
-	base     int  // items registered earlier in the history (several containers share the store)
-	compress bool // zip kinds: ask for compression (gen "hold")
-	minimal  bool // the items are minimal instances (gen "minimal")
+	nFixed   int      // >= 0: that many elements, drawn from three registered ones (gen "counts")
+	base     int      // items registered earlier in the history (several containers share the store)
+	compress bool     // zip kinds: ask for compression (gen "hold")
+	minimal  bool     // the items are minimal instances (gen "minimal")
+	plan     *minPlan // minimal: the plan of every item (nil: a section drawn per item)
+	how      string   // record lists: the setter to use ("" : drawn)
+	nonEmpty bool     // at least one element (gen "hold": there must be something to hold on to)
 }
 
 // the registered item of a container
@@ -782,7 +785,9 @@ func itemMessage(pt *ptype, seed int64, o buildOpts, r *rand.Rand, write func(p 
 	// a minimal instance: one of its sections (in turn by the seed) holds one or two elements, every other none
 	d := sectionsOf(pt)
 	plan := &minPlan{counts: map[string]int{}}
-	if len(d.seen) > 0 && r.Intn(4) > 0 {
+	if o.plan != nil {
+		plan = o.plan
+	} else if len(d.seen) > 0 && r.Intn(4) > 0 {
 		n := 1 + r.Intn(2)
 		if o.nFixed <= 2 && r.Intn(3) == 0 {
 			n = 255 // a long section inside a record / an inner pack (only where few of them are built)
@@ -825,6 +830,9 @@ func zipView(box interface{}, concat []byte) (status int, gz bool, same bool) {
 func packBuild(emit func(core.Ev), kind string, r *rand.Rand, o buildOpts) (*built, error) {
 	nFixed := o.nFixed
 	n := []int{0, 1, 2, 3, 3, 5}[r.Intn(6)]
+	if o.nonEmpty && n == 0 {
+		n = 2
+	}
 	distinct := n
 	if nFixed >= 0 {
 		n, distinct = nFixed, 3
@@ -1130,8 +1138,16 @@ func recsHistory(c *core.Ctx, t *core.Trace, rk *recKind, cas int, r *rand.Rand,
 func recsBuild(emit func(core.Ev), rk *recKind, cas int, r *rand.Rand, o buildOpts) (*built, error) {
 	nFixed := o.nFixed
 	how := rk.setters[r.Intn(len(rk.setters))]
+	for _, x := range rk.setters {
+		if x == o.how {
+			how = x
+		}
+	}
 	n := []int{0, 0, 1, 2, 3, 4, 7}[r.Intn(7)]
 	unset := n == 0 && r.Intn(2) == 0 // a pack whose records were never set
+	if o.nonEmpty && n == 0 {
+		n, unset = 2, false
+	}
 	if nFixed < 0 && cas%1000 == 0 && n == 0 {
 		n, unset = 2, false // the first history of a pack type always holds records (the binding self-test corrupts its item list)
 	}
